@@ -34,13 +34,16 @@ var vAllocMemOnce sync.Once
 func vAllocMemWatch() {
 	vAllocMemOnce.Do(func() {
 		go func() {
-			s := []metrics.Sample{{Name: "/memory/classes/total:bytes"}}
+			// mapped minus returned to the OS (the total alone only ever grows)
+			s := []metrics.Sample{{Name: "/memory/classes/total:bytes"}, {Name: "/memory/classes/heap/released:bytes"}}
 			for {
 				time.Sleep(10 * time.Millisecond)
 				metrics.Read(s)
-				if s[0].Value.Kind() == metrics.KindUint64 && s[0].Value.Uint64() > vAllocMemLimit {
-					fmt.Fprintf(os.Stderr, "verif: allocator harness exceeded its memory budget (%d bytes mapped)\n",
-						s[0].Value.Uint64())
+				if s[0].Value.Kind() != metrics.KindUint64 || s[1].Value.Kind() != metrics.KindUint64 {
+					continue
+				}
+				if used := s[0].Value.Uint64() - s[1].Value.Uint64(); used > vAllocMemLimit {
+					fmt.Fprintf(os.Stderr, "verif: allocator harness exceeded its memory budget (%d bytes in use)\n", used)
 					os.Exit(3)
 				}
 			}
